@@ -465,7 +465,7 @@ fn still_fails(c: &Case, f: &Failure) -> Option<Failure> {
 pub fn minimise(c: &Case, f: &Failure) -> (Case, Failure) {
     let mut cur = c.clone();
     let mut curf = f.clone();
-    let mut attempt = |cand: Case, cur: &mut Case, curf: &mut Failure| {
+    let attempt = |cand: Case, cur: &mut Case, curf: &mut Failure| {
         if cand != *cur {
             if let Some(g) = still_fails(&cand, curf) {
                 *cur = cand;
@@ -528,7 +528,6 @@ pub struct Sweep {
     pub nontrivial: u64,
     /// signature -> replay detail (first in enumeration order)
     pub found: BTreeMap<String, J>,
-    pub samples: Vec<J>,
 }
 
 /// Evaluate all cases of all (node, lane) pairs, in parallel over the pairs.
@@ -550,6 +549,7 @@ pub fn sweep(pairs: &[(String, String)], bodies: &[Option<String>]) -> Sweep {
                 sw.found.entry(sig).or_insert_with(|| {
                     let frame = check_case(&mc).frame;
                     json!({"leg": "pure", "case": mc.to_json(), "frame": frame, "reader": mf.reader, "law": mf.law, "field": mf.field,
+                           "what": format!("ReconEncoder -> {}: {} of a `{}` envelope is not read back as written ({})", mf.reader, mf.field, mc.kind.name(), mf.expl),
                            "explanation": mf.expl, "example": format!("{} node={:?} lane={:?} body={:?} -> frame {:?}", mc.kind.name(), mc.node, mc.lane, mc.body, frame),
                            "first_seen_on": c.to_json()})
                 });
